@@ -220,3 +220,12 @@ func head(b []byte) []byte {
 	}
 	return b
 }
+
+// Scribble overwrites a buffer the harness owns (all of its capacity) the way a caller does who reuses its buffer for
+// the next message: whatever the code under test handed out before must not depend on it any more.
+func Scribble(b []byte) {
+	b = b[:cap(b)]
+	for i := range b {
+		b[i] ^= 0xa5
+	}
+}
